@@ -145,6 +145,16 @@ def dropNewestOfFirst : Buckets → Buckets
     | [] => rest
     | q' => (k, q') :: rest
 
+/-- `SortProcess::process` on a row whose key is `k`: insert; when no space is left, drop the
+row that sorts last (`remove_last_item`); otherwise count the space down -/
+def sortStep (desc : Bool) (k : JV) (ctx : Ctx) : Buckets × Option Nat → Buckets × Option Nat
+  | (data, space) =>
+    let data' := bucketInsert k ctx data
+    match space with
+    | some 0 => (if desc then dropNewestOfFirst data' else dropNewestOfLast data', some 0)
+    | some (n + 1) => (data', some n)
+    | none => (data', none)
+
 /-- the rows in the order `complete` emits them (`pop_back` = oldest first) -/
 def bucketsEmit (desc : Bool) (data : Buckets) : List Ctx :=
   let ordered := if desc then data.reverse else data
@@ -265,11 +275,8 @@ def process : (cfgs : List StageCfg) → List StageSt → Writer → Ctx → Res
       | .sort data space => do
         match (← evalE orc w key ctx) with
         | some k =>
-          let data' := bucketInsert k ctx data
-          match space with
-          | some 0 => stay (.sort (if desc then dropNewestOfFirst data' else dropNewestOfLast data') (some 0))
-          | some (n + 1) => stay (.sort data' (some n))
-          | none => stay (.sort data' none)
+          let (data', space') := sortStep desc k ctx (data, space)
+          stay (.sort data' space')
         | none => stay st
       | _ => .error ⟨.config "bad state", w⟩
     | .limit skip take =>
